@@ -110,6 +110,13 @@ def run(tier):
     for pat in ([None, 1, 1, 2], [2, None, 1, 1], [1, None, None, 2], [None, None, 1, 1]):
         scs.append(dict(sid="stock[kundur/kundur_coi.xlsx|GENROU.coi=%s]" % pat, case="kundur/kundur_coi.xlsx", collate=[],
                         set_before_setup=[("GENROU", "coi", pat)]))
+    # devices that borrow an index-valued parameter from the device they name (a ZIP / frequency-dependent load takes the bus of
+    # its PQ, an area-control device the area of its bus), added in an order that is not the order of the parent table
+    scs.append(dict(sid="stock[ieee14/ieee14_full.xlsx|loads and area control added out of order]", case="ieee14/ieee14_full.xlsx", collate=[],
+                    add_before_setup=[("ZIP", dict(idx="ZIP_A", pq="PQ_9", kpp=50, kpi=40, kpz=10, kqp=100, kqi=0, kqz=0)),
+                                      ("ZIP", dict(idx=7, pq="PQ_3", kpp=20, kpi=20, kpz=60, kqp=40, kqi=20, kqz=40)),
+                                      ("FLoad", dict(idx="FL_1", pq="PQ_6")), ("FLoad", dict(idx=2, pq="PQ_2")),
+                                      ("ACEc", dict(idx="ACE_X", bus=13, bias=-10)), ("ACEc", dict(idx=3, bus=2, bias=-10))]))
     for i, sc in enumerate(scs):
         sc["tid"] = i + 1
     res = run_tasks("vh.addrdrv:run_addr", scs, nproc=NCPU, timeout=600)
